@@ -442,6 +442,10 @@ func (n *Net) collect(node *Node, pv interface{}, stack string) string {
 				}
 				if blk == nil {
 					n.BadVotes = append(n.BadVotes, fmt.Sprintf("node %d %s h=%d r=%d for a block it does not hold", node.Idx, kind, vm.Vote.Height, vm.Vote.Round))
+				} else if blk.Header.Recover != 0 {
+					// independent of validateBlock (which relaxes its ValidatorsHash check for recover blocks): no node of the
+					// simulation is ever in recover mode
+					n.BadVotes = append(n.BadVotes, fmt.Sprintf("node %d %s h=%d r=%d for a recover block (Recover=%d) outside recover mode", node.Idx, kind, vm.Vote.Height, vm.Vote.Round, blk.Header.Recover))
 				} else if err := cs.VerifValidateBlock(node.DB, node.CS.VerifStatus(), blk); err != nil {
 					n.BadVotes = append(n.BadVotes, fmt.Sprintf("node %d %s h=%d r=%d for a block failing validateBlock: %.120s", node.Idx, kind, vm.Vote.Height, vm.Vote.Round, err.Error()))
 				}
